@@ -61,3 +61,39 @@ Proof.
 Qed.
 
 End Reroot.
+
+(* ---- exclusion patterns matter only at or below module_path ---- *)
+Section ExclBelow.
+Context {comp : Type} (ceqb : comp -> comp -> bool).
+Notation name := (list comp).
+Notation fsnode := (@fsnode comp).
+
+(* two exclusion predicates that agree on every path at or below [path] give the same walk from there *)
+Lemma walk_excl_ext (e1 e2 : name -> bool) (root : comp) (n : fsnode) : forall path,
+  (forall q, e1 (path ++ q) = e2 (path ++ q)) ->
+  walk e1 root path n = walk e2 root path n.
+Proof.
+  induction n as [nm py body|nm cs IH] using fsnode_ind'; intros path H; cbn [walk].
+  - rewrite (H [nm]). reflexivity.
+  - rewrite (H [nm]). destruct (e2 (path ++ [nm])); [reflexivity|].
+    assert (Hm : map (walk e1 root (path ++ [nm])) cs = map (walk e2 root (path ++ [nm])) cs).
+    { apply map_ext_in. intros c Hc. rewrite Forall_forall in IH. apply (IH c Hc).
+      intros q. rewrite <- !app_assoc. apply H. }
+    rewrite Hm. reflexivity.
+Qed.
+
+(* ... hence a pattern that matches directories ABOVE module_path only (root_path's own directory included) is as good as
+   no pattern: whatever the two predicates say about proper prefixes of [mp] *)
+Theorem walk_from_excl_below (e1 e2 : name -> bool) (root : comp) (tree : list fsnode) (mp : name) :
+  (forall q, e1 (mp ++ q) = e2 (mp ++ q)) ->
+  walk_from ceqb e1 root tree mp = walk_from ceqb e2 root tree mp.
+Proof.
+  intros H. unfold walk_from. destruct (subdir ceqb tree mp) as [cs|]; [|reflexivity].
+  pose proof (H []) as H0. rewrite app_nil_r in H0. rewrite H0.
+  destruct (e2 mp); [reflexivity|].
+  assert (Hm : map (walk e1 root mp) cs = map (walk e2 root mp) cs).
+  { apply map_ext. intros c. apply walk_excl_ext. exact H. }
+  rewrite Hm. reflexivity.
+Qed.
+
+End ExclBelow.
